@@ -149,6 +149,17 @@ func getOrCreateAndAppendField(c *[]CollectedField, name, alias string, objectDe
 					return &(*c)[i]
 				}
 			}
+
+			// Both selections were written against abstract types (interfaces or unions) whose
+			// type conditions matched, or one against a union the other's type is a member of:
+			// they select the same response key of the same object and must merge.
+			if isAbstractDefinition(cf.ObjectDefinition) && isAbstractDefinition(objectDefinition) {
+				return &(*c)[i]
+			}
+			if unionHasMember(cf.ObjectDefinition, objectDefinition.Name) ||
+				unionHasMember(objectDefinition, cf.ObjectDefinition.Name) {
+				return &(*c)[i]
+			}
 		}
 	}
 
@@ -156,6 +167,22 @@ func getOrCreateAndAppendField(c *[]CollectedField, name, alias string, objectDe
 
 	*c = append(*c, f)
 	return &(*c)[len(*c)-1]
+}
+
+func isAbstractDefinition(def *ast.Definition) bool {
+	return def.Kind == ast.Interface || def.Kind == ast.Union
+}
+
+func unionHasMember(def *ast.Definition, name string) bool {
+	if def.Kind != ast.Union {
+		return false
+	}
+	for _, t := range def.Types {
+		if t == name {
+			return true
+		}
+	}
+	return false
 }
 
 func shouldIncludeNode(directives ast.DirectiveList, variables map[string]any) bool {
